@@ -46,6 +46,11 @@ def self_reads(repo, vc, f, seen=None):
         if isinstance(x, ast.Attribute) and isinstance(x.value, ast.Name) \
                 and x.value.id == "self" and isinstance(x.ctx, ast.Load):
             m = vc.methods.get(x.attr)
+            if m is None:
+                # a method inherited from Device / SubProgram
+                _, m = repo.lookup(vc, x.attr)
+                if not isinstance(m, FUNC):
+                    m = None
             if m is not None:
                 out |= self_reads(repo, vc, m, seen)
             else:
@@ -53,10 +58,16 @@ def self_reads(repo, vc, f, seen=None):
     return out
 
 
-def simulate(repo, vc, f, fields, now, sym):
+def simulate(repo, vc, f, fields, now, sym, in_cycle=True):
     """abstract execution of a Valve method on an instance with the given
     (finite-domain) field values; the clock reads `now`"""
     me = Obj(vc, fields)
+    # update() runs inside a cycle, where a time stamp the sync group may
+    # keep is this cycle's; reset() is called by the user at any time,
+    # when whatever stamp another object keeps is from some earlier moment
+    stamp = now if in_cycle else now - 1000.0
+    me.fields.setdefault("sync_group", Obj(None, {"__getattr__": (
+        "hook", lambda name: stamp)}))
     ev = Evaluator(repo, f._module, vc, funcs={"monotonic": lambda: now})
     try:
         ev.call_function(f, [me], cls=vc)
@@ -103,7 +114,9 @@ def run(chk, repo):
     # The shape of the method does not matter.
     KNOWN = {"openSwitch", "closedSwitch", "coil", "safeState", "target",
              "error", "lastGood", "movingTime"}
-    extra = sorted(a for a in self_reads(repo, vc, f) - KNOWN
+    inherited = {a for c in repo.mro(vc) if isinstance(c, ClassInfo)
+                 and c is not vc for a in c.attrs}
+    extra = sorted(a for a in self_reads(repo, vc, f) - KNOWN - inherited
                    if a not in vc.attrs or isinstance(
                        vc.attr_stmts.get(a), ast.Assign) and match(
                            "TerminalVar($*a)", vc.attr_stmts[a].value)
@@ -209,7 +222,7 @@ def run(chk, repo):
                       "error": err, "lastGood": T0}
             before.update(zip(extra, ex_))
             after = simulate(repo, vc, r, dict(before), T0 + 77.0,
-                             V + ".reset")
+                             V + ".reset", in_cycle=False)
             if after.get("error") is not False or after.get(
                     "lastGood") != T0 + 77.0:
                 bad.append(f"error={int(err)} before: ends with error="
